@@ -9,6 +9,10 @@ CLAIMED = {
  "C10": ("seeded fault-injecting simulation of sample histories vs trapezoid/difference reference models with forward error bound, time-shift twin, mis-dimensioned sample faults", "5 C10"),
  "C11": ("seeded simulation of sample/command/follow histories vs staged CommandPID reference model; set-same twin", "5 C11"),
  "C12": ("seeded simulation of irregular/duplicate-timestamp histories: formula model, convexity invariant, f32/Quantity variant twin, no-panic", "5 C12"),
+ "C08": ("seeded simulation of device graphs (set/update schedules, presence patterns, relinking) with a per-update least-squares projection oracle from the values read at the terminals", "5 C08"),
+ "C09": ("seeded connect/re-pair/disconnect (partition/heal) sequences on free terminals against a symmetric-matching reference model; panics are crashes", "5 C09"),
+ "C13": ("seeded simulation of device chains under arbitrary update schedules and skewed issuer clocks: newest-command-wins per update + bounded-progress check over the recorded schedule", "5 C13"),
+ "C20": ("seeded simulation of wrappers with inner-getter faults and inner-settable rejections; PID wrapper against a separately driven CommandPID twin", "5 C20"),
 }
 NOT_APPLICABLE = {
  "C01": "pure function of (unit, unit, operator): no state, seam, clock, fault or order for a simulator to control; deterministic simulation with fault injection does not apply (DESIGN.md section 0)",
